@@ -44,6 +44,10 @@ class CloneHooks(LineHooks):
             return Abs(None, label="jsoncopy")
         if d is not None and d.split(".")[-1] == "deepcopy" and len(args) == 1:
             return Abs(None, label="deepcopy")
+        if d == "dict" and len(args) == 1 and not kwargs and \
+                isinstance(args[0], Abs) and args[0].cls is None:
+            # dict(x): a new dictionary with the entries of the abstract one
+            return Abs(None, label="copy of %s" % args[0].label)
         return super().function(ev, node, args, kwargs)
 
     def construct(self, ev, cls, args, kwargs):
